@@ -298,6 +298,38 @@ def cases(rng, tier):
         cs = [_gen_conflict(rng, pool, ID_POOL, odd=0.1, cr=0.01 if i % 5 == 0 else 0.0) for _ in range(n)]
         yield {"kind": "select", "tree": tree, "paths": paths, "recurse": rng.random() < 0.5, "cs": cs,
                "p2i": _p2i(tree, paths)}
+    # 4b selections where exactly one channel (path, conflict_path, file_id, conflict_file_id) can hit
+    for i in range(120 if quick else 2000):
+        tree = rng.choice(list(TREES))
+        versioned = [e for e in TREES[tree] if e[0] != ""]
+        picked = rng.sample(versioned, rng.randint(1, 2))
+        paths = [e[0] for e in picked]
+        recurse = rng.random() < 0.5
+        cs = []
+        for _ in range(rng.randint(1, 4)):
+            chan = rng.choice(["path", "cpath", "fid", "cfid"])
+            hit = rng.random() < 0.6
+            c = {"k": rng.choice([k for k in KIND_LIST if KINDS[k][1] == 4]) if chan in ("cpath", "cfid") or rng.random() < 0.4
+                 else rng.choice(KIND_LIST),
+                 "path": "zz", "fid": rng.choice([None, b"other-id"]), "cpath": None, "action": None, "cfid": None}
+            shape = KINDS[c["k"]][1]
+            if shape >= 3:
+                c["action"] = rng.choice(ACTIONS)
+            if shape == 4:
+                c["cpath"] = "zz/q"
+                c["cfid"] = rng.choice([None, b"other-id"])
+            e = rng.choice(picked)
+            if hit:
+                if chan == "path":
+                    c["path"] = e[0] if (not recurse or e[1] != "d" or rng.random() < 0.5) else e[0] + "/below"
+                elif chan == "cpath" and shape in (2, 4):
+                    c["cpath"] = e[0] if (not recurse or e[1] != "d" or rng.random() < 0.5) else e[0] + "/below"
+                elif chan == "fid":
+                    c["fid"] = e[2]
+                elif chan == "cfid" and shape == 4:
+                    c["cfid"] = e[2]
+            cs.append(c)
+        yield {"kind": "select", "tree": tree, "paths": paths, "recurse": recurse, "cs": cs, "p2i": _p2i(tree, paths)}
     # 5 merge-modified dicts
     for _ in range(60 if quick else 1500):
         tree = rng.choice(list(TREES))
